@@ -152,6 +152,7 @@ struct State {
     done: bool,
     counters: HashMap<&'static str, u64>,
     clock_jumps: u64,
+    sleep_log: Vec<(usize, i64, u64)>,
 }
 
 pub struct Kernel {
@@ -228,6 +229,7 @@ impl Kernel {
                 done: false,
                 counters: HashMap::new(),
                 clock_jumps: 0,
+                sleep_log: vec![],
             }),
             done_cv: Condvar::new(),
             spawn_cv: Condvar::new(),
@@ -305,6 +307,18 @@ impl Kernel {
     pub fn count(&self, name: &'static str, n: u64) {
         let mut st = self.lock();
         *st.counters.entry(name).or_insert(0) += n;
+    }
+
+    /// (start instant, duration) of every simulated sleep of the threads with this name.
+    pub fn sleep_log(&self, name: &str) -> Vec<(i64, u64)> {
+        let st = self.lock();
+        st.sleep_log.iter().filter(|(t, _, _)| st.threads[*t].name == name).map(|(_, a, d)| (*a, *d)).collect()
+    }
+
+    /// Whether a thread with this name exists and has not finished.
+    pub fn thread_alive(&self, name: &str) -> bool {
+        let st = self.lock();
+        st.threads.iter().any(|t| t.name == name && t.status != Status::Finished)
     }
 
     pub fn any_fault_or_crash_fired(&self) -> bool {
@@ -690,6 +704,7 @@ impl Kernel {
         if let Some(me) = my_tid() {
             let wake = clock::now_ns().saturating_add(d.as_nanos().min(i64::MAX as u128) as i64);
             self.note("sleep", &d.as_nanos().to_string());
+            self.lock().sleep_log.push((me, clock::now_ns(), d.as_nanos().min(u64::MAX as u128) as u64));
             self.yield_with(me, "sleep", Status::Sleeping { wake_ns: wake });
         }
     }
